@@ -141,7 +141,7 @@ def gen_cases(tier, seed):
     rng = random.Random(f"c10-{seed}")
     src = {"core": 0, "tests": 0, "fixture": 0}
     cases = []
-    reps = 2 if tier == "quick" else 40
+    reps = 2 if tier == "quick" else 200
     # class lists are resolved in the worker (by index modulo); here only descriptors
     for source in ("core", "tests", "fixture"):
         for chunk in range(16 if source != "fixture" else 4):
